@@ -108,6 +108,7 @@ type retRun struct {
 	loopMode    bool
 	exitCh      chan error
 	scans       int
+	removals    int // RemoveMessage calls made by the scan so far
 }
 
 func (r *retRun) emit(ev tr.Ev) {
@@ -235,6 +236,14 @@ func (r *retRun) runEnv(st *retStep, next string) {
 		ev["r"] = errClass(r.real.PurgeMessages(name))
 		r.snapInto(ev)
 		r.emit(ev)
+	case "refill":
+		// the mailbox is emptied and new (young) mail arrives in it
+		ev := tr.Ev{"a": "env", "c": "purge", "mb": name, "during": true, "site": st.Site, "tc": st.TC}
+		ev["r"] = errClass(r.real.PurgeMessages(name))
+		r.snapInto(ev)
+		r.emit(ev)
+		r.deliver(name, st.Age, true, st.Site)
+		r.deliver(name, st.Age, true, st.Site)
 	}
 }
 
@@ -266,6 +275,24 @@ func (r *retRun) doCancel(how string) {
 type retWrap struct {
 	storage.Store
 	r *retRun
+}
+
+// RemoveMessage is what the scan calls for every expired message of the list it was handed: the
+// driver can act between the scan's look at a mailbox and its removals there (site "r": before
+// the K-th removal of the scan, on the mailbox being worked on).
+func (w *retWrap) RemoveMessage(mailbox, id string) error {
+	r := w.r
+	r.removals++
+	if r.scans == 1 {
+		for i := range r.b.Steps {
+			st := &r.b.Steps[i]
+			if st.C == "env" && st.Site == "r" && st.K == r.removals && !st.done {
+				st.TC = "next"
+				r.runEnv(st, mailbox)
+			}
+		}
+	}
+	return w.Store.RemoveMessage(mailbox, id)
 }
 
 func (w *retWrap) VisitMailboxes(f func([]storage.Message) bool) error {
